@@ -296,10 +296,14 @@ Section Signals.
           rewrite H1, forallb_app, H2; simpl. split; reflexivity.
         * intros Hk. destruct (Hno Hk) as [pre [rest [e [tl [E1 [E2 [E3 [E4 E5]]]]]]]].
           exists (l :: pre), rest, e, (tl ++ [Notified l (snapshot (options s)) u true]).
-          subst evs. simpl. repeat split; try assumption.
-          -- now rewrite E1.
-          -- rewrite app_comm_cons, listeners_app, rev_app_distr. simpl. simpl in E3. now rewrite E3.
-          -- rewrite forallb_app, E5; reflexivity.
+          subst evs.
+          split; [simpl; now rewrite E1|].
+          split; [reflexivity|].
+          split; [change (e :: tl ++ [Notified l (snapshot (options s)) u true])
+                    with ((e :: tl) ++ [Notified l (snapshot (options s)) u true]);
+                  rewrite listeners_app, rev_app_distr, E3; reflexivity|].
+          split; [exact E4|].
+          rewrite forallb_app, E5; reflexivity.
       + inversion H; subst; clear H.
         exists [Notified l (snapshot (options s)) u false]. simpl.
         split; [reflexivity|]. split; [repeat split|].
